@@ -495,6 +495,10 @@ def replay(case, oracle):
     if "text" not in c:
         print(case)
         return 1
+    if str(c.get("mode", "")).startswith("element by element"):
+        r = stepwise_observed(c["text"], c.get("seed", 0))
+        print("element by element with the accessors read in between:", r)
+        return 1 if (r is None or r[0] or r[1]) else 0
     if c.get("script") is not None:
         r = gl.ImplRun(c["text"], 0, script=c["script"], forced_targets=c.get("forced_targets"))
     else:
@@ -508,3 +512,42 @@ def replay(case, oracle):
         bad = oracle(View(r), r) or []
         print("oracle:", bad or "holds")
     return 1 if (bad or d) else 0
+
+
+def stepwise_observed(text, seed):
+    """Generate element by element -- exactly what Molecule.generate does -- but read every accessor of the growing molecule between
+    the elements.  Returns (c05_bad, c10_bad): an accessor that does not describe the molecule held at that moment (C05), and a final
+    molecule that differs from the one-shot generation with the same seed because accessors were read (C10).  None when the input
+    cannot be generated at all."""
+    import gbigsmiles
+    import numpy as np
+    from rdkit import Chem
+    from rdkit.Chem import Descriptors
+
+    try:
+        with fw.time_limit(60):
+            one = gbigsmiles.Molecule(text).generate(rng=np.random.default_rng(seed))
+            m2 = gbigsmiles.Molecule(text)
+            rng = np.random.default_rng(seed)
+            g = None
+            c05, c10 = [], []
+            for i, el in enumerate(m2._elements):
+                g = el.generate(g, rng)
+                s, w = g.smiles, float(g.weight)
+                _ = (g.fully_generated, g.graph.number_of_nodes())
+                ref = Chem.MolToSmiles(g.mol)
+                if s != ref:
+                    c05.append(f"after element {i} of {len(m2._elements)}: .smiles = {s!r} but the molecule held (.mol) is {ref!r}")
+                ms = Chem.MolFromSmiles(s)
+                if ms is not None and abs(Descriptors.HeavyAtomMolWt(ms) - w) > 1e-6 * max(1.0, w):
+                    c05.append(f"after element {i}: heavy-atom mass of .smiles {Descriptors.HeavyAtomMolWt(ms):.3f} != .weight {w:.3f}")
+            if one is None or g is None:
+                return None
+            a, b = Chem.MolToSmiles(one.mol), Chem.MolToSmiles(g.mol)
+            if a != b:
+                c10.append(f"same string, same seed: one-shot generation gives {a}, element-by-element generation with the accessors read in between gives {b}")
+            if one.smiles != g.smiles:
+                c10.append(f"same string, same seed: .smiles is {one.smiles!r} after one-shot generation and {g.smiles!r} when it was also read while the molecule grew")
+            return c05, c10
+    except Exception:  # not generable, scipy draw failure, time limit: decided elsewhere
+        return None
